@@ -1,3 +1,8 @@
+import os, sys
+sys.path.insert(0, os.path.dirname(os.path.abspath(__file__)))
+import importlib
+import stack as _stack_spec
+importlib.reload(_stack_spec)
 """Units `vm_struct` (marwood/src/vm/mod.rs: struct Vm) and `run` (marwood/src/vm/run.rs: run_count, run) -- C13, C07."""
 
 VM_STRUCT_PRELUDE = r'''
@@ -51,16 +56,16 @@ pub assume_specification [Heap::get_as_cell] (h: &Heap, v: &VCell) -> (r: Cell) 
 pub uninterp spec fn stack_sp(s: Stack) -> usize;
 pub uninterp spec fn stack_wiped(s: Stack) -> bool;
 /// every slot Undefined afterwards, sp unchanged (proved in unit `stack`; assumed in this group where Stack is opaque)
-pub assume_specification [Stack::clear] (s: &mut Stack) ensures stack_wiped(*final(s)), stack_sp(*final(s)) == stack_sp(*old(s));
+pub assume_specification [Stack::clear] (s: &mut Stack) ensures CLEAR_MODEL_U;
 /// hands out the stack pointer register: only sp changes through the returned reference
 /// further Stack accessors (run_count does not call them; declared so that a change that does stays decidable): nothing is known
 /// about what a write through get_mut leaves
-pub assume_specification [Stack::get_sp] (s: &Stack) -> (r: usize) ensures r == stack_sp(*s);
+pub assume_specification [Stack::get_sp] (s: &Stack) -> (r: usize) ensures GET_SP_MODEL_U;
 pub assume_specification [Stack::len] (s: &Stack) -> (r: usize);
 pub assume_specification [Stack::get] (s: &Stack, i: usize) -> (r: Result<&VCell, Error>);
 pub assume_specification [Stack::get_mut] (s: &mut Stack, i: usize) -> (r: Result<&mut VCell, Error>);
 pub assume_specification [Stack::get_sp_mut] (s: &mut Stack) -> (r: &mut usize)
-    ensures *r == stack_sp(*old(s)), stack_sp(*final(s)) == *final(r), stack_wiped(*final(s)) == stack_wiped(*old(s));
+    ensures GET_SP_MUT_MODEL_U;
 /// heap and global environment of an observable state
 pub uninterp spec fn obs_store(o: int) -> (Heap, GlobalEnvironment);
 #[verifier::external_body]
@@ -125,7 +130,9 @@ UNITS = [
         'name': 'run',
         'file': 'src/vm/run.rs',
         'uses_types': ['Cell', 'Error', 'Heap', 'Stack', 'GlobalEnvironment', 'StackTrace', 'VCell', 'OpCodeT'],
-        'prelude': RUN_PRELUDE,
+        'prelude': RUN_PRELUDE.replace('GET_SP_MUT_MODEL_U', _stack_spec.GET_SP_MUT_MODEL.replace('WIPED', 'stack_wiped').replace('SP', 'stack_sp').replace('s1', '*final(s)').replace('s0', '*old(s)').replace('r0', '*r').replace('r1', '*final(r)'))
+                              .replace('GET_SP_MODEL_U', _stack_spec.GET_SP_MODEL.replace('SP', 'stack_sp').replace('s0', '*s').replace('r0', 'r'))
+                              .replace('CLEAR_MODEL_U', _stack_spec.CLEAR_MODEL.replace('WIPED', 'stack_wiped').replace('SP', 'stack_sp').replace('s1', '*final(s)').replace('s0', '*old(s)')),
         'fns': {
             'impl Vm::run_count': {
                 'props': ['C13', 'C07', 'C06'],
